@@ -22,8 +22,12 @@ RULE = ("histories of 4-14 operations over 1-4 Diagnostic instances (300 per qui
         "or two diagnose calls on one instance with different kwargs; real-function histories on 4-7 bus nets with injected faults")
 ASSUMPTIONS = ["diagnostic function objects behave as functions of (net, kwargs received) - checked by the reference evaluation with "
                "freshly constructed function objects",
-               "net unchanged by diagnose_network is validated differentially only (table snapshots), not proved"]
-TRUSTED = ["recorder replacement of the `diagnostic` method on the module-level default function objects (harness process only)"]
+               "net unchanged by diagnose_network: table snapshots on the real-function histories; for the four functions that modify the net "
+               "temporarily an exhaustive scripted run (every outcome converges / expected exception / unexpected exception of every power "
+               "flow, injected through the documented run= argument; crashes of create_switch inside the impedance replacement) against "
+               "C30.ModelRestore"]
+TRUSTED = ["recorder replacement of the `diagnostic` method on the module-level default function objects (harness process only)",
+           "replacement of diagnostic_functions.create_switch by a crashing wrapper in the scripted impedance runs (harness process only)"]
 
 K_IMP = "C30-implausible-impedance-no-restore"
 IMP_TABLES = {"switch", "line", "impedance", "vsc", "line_dc", "ward", "xward", "trafo", "trafo3w"}
@@ -391,6 +395,122 @@ def real_history(ctx, rng):
     ctx.count("real_histories")
 
 
+# ------------------------------------------------------------------ the functions that modify the net temporarily
+K_EXP = "C30-experiment-no-restore-on-unexpected-exception"
+RESTORE_FUNS = ["overload", "line_capacitance", "switch_configuration", "impedance"]
+
+
+def _restore_net(which):
+    net = pp.create_empty_network()
+    b = [pp.create_bus(net, 20.0) for _ in range(4)]
+    pp.create_ext_grid(net, b[0])
+    pp.create_line(net, b[0], b[1], 1.0, "NAYY 4x150 SE")
+    pp.create_line(net, b[1], b[2], 1.0, "NAYY 4x150 SE")
+    pp.create_line(net, b[2], b[3], 0.5, "NAYY 4x150 SE")
+    pp.create_load(net, b[1], 0.25, 0.0625, scaling=0.75)
+    pp.create_load(net, b[3], 0.125, 0.0, scaling=1.25)
+    pp.create_gen(net, b[2], p_mw=0.0625, vm_pu=1.0, scaling=0.5)
+    pp.create_sgen(net, b[3], p_mw=0.03125, scaling=1.5)
+    pp.create_switch(net, b[1], 0, et="l", closed=True)
+    pp.create_switch(net, b[2], 1, et="l", closed=False)
+    if which == 3:   # two lines with implausibly small impedance: the replacement creates two bus-bus switches
+        net.line.loc[1, "length_km"] = 0.0
+        net.line.loc[2, "length_km"] = 0.0
+    return net
+
+
+def _restore_flags(before, net):
+    """[load.scaling, gen.scaling, sgen.scaling, line.c_nf_per_km, switch.closed, the nine tables of the impedance experiment
+    (without the two columns named before)] differ from the start"""
+    def ne(a, b):
+        return not (list(a.index) == list(b.index) and list(a.columns) == list(b.columns) and a.equals(b))
+    imp = False
+    for t in sorted(IMP_TABLES):
+        drop = {"line": ["c_nf_per_km"], "switch": ["closed"]}.get(t, [])
+        if ne(before[t].drop(columns=drop), net[t].drop(columns=drop)):
+            imp = True
+    return [not before.load.scaling.equals(net.load.scaling), not before.gen.scaling.equals(net.gen.scaling),
+            not before.sgen.scaling.equals(net.sgen.scaling), not before.line.c_nf_per_km.equals(net.line.c_nf_per_km),
+            not before.switch.closed.equals(net.switch.closed), imp]
+
+
+def restore_cases(ctx):
+    """every script of power flow outcomes (converges / expected exception / unexpected exception) for the four functions, for
+    the impedance experiment also a crash in each of its table writes; through the public API with the documented `run` kwarg"""
+    import itertools
+    import sys
+    dfm = sys.modules["pandapower.diagnostic.diagnostic_functions"]
+    from pandapower.auxiliary import LoadflowNotConverged
+    classes = [dfm.Overload, dfm.WrongLineCapacitance, dfm.WrongSwitchConfiguration, dfm.ImplausibleImpedanceValues]
+    cases = []
+    for which, nrun in ((0, 4), (1, 2), (2, 2), (3, 2)):
+        for script in itertools.product("CEU", repeat=nrun):
+            for crash_at in ([None] if which != 3 else [None, 0, 1]):
+                cases.append((which, list(script), crash_at))
+    terms, obs = [], []
+    for which, script, crash_at in cases:
+        net = _restore_net(which)
+        before = copy.deepcopy(net)
+        calls = []
+
+        def run(n, **kw):
+            calls.append(1)
+            o = script[len(calls) - 1] if len(calls) <= len(script) else "C"
+            if o == "E":
+                raise LoadflowNotConverged("scripted")
+            if o == "U":
+                raise ZeroDivisionError("scripted unexpected failure of power flow #%d" % len(calls))
+        made = []
+        orig_cs = dfm.create_switch
+
+        def create_switch(*a, **kw):
+            if crash_at is not None and len(made) == crash_at:
+                raise RuntimeError("scripted crash in table write #%d of the replacement" % crash_at)
+            made.append(1)
+            return orig_cs(*a, **kw)
+        d = Diagnostic(add_default_functions=False)
+        d.register_function(classes[which](), None, "f")
+        dfm.create_switch = create_switch
+        try:
+            d.diagnose_network(net, report_style=None, run=run)
+        finally:
+            dfm.create_switch = orig_cs
+        r = d.diag_results.get("f")
+        if "f" in d.diag_errors:
+            res = cq.Err("raised")
+        elif which == 0:
+            res = -1 if r is None else 2 * int(r["load"]) + int(r["generation"])
+        elif which in (1, 2):
+            res = -1 if r is None else int(bool(r))
+        else:
+            res = 1 if len(r) < 2 else (3 if r[1]["loadflow_converges_with_switch_replacement"] else 2)
+        flags = _restore_flags(before, net)
+        guard = all(o != "U" for o in script[1:])
+        desc = {"restore": RESTORE_FUNS[which], "script": script, "crash_at_write": crash_at}
+        if any(flags):
+            # (the defect C30-experiment-no-restore-on-unexpected-exception - no restore when a power flow of the experiment raised
+            # an unexpected exception, i.e. outside the guard - was repaired in /repo: every failure is unclassified)
+            ctx.violation("spec", "diagnose_network left the network modified (%s) after the %s check" % (
+                [n for n, f in zip(["load.scaling", "gen.scaling", "sgen.scaling", "line.c_nf_per_km", "switch.closed", "impedance tables"], flags) if f],
+                RESTORE_FUNS[which]), desc)
+        ctx.case(desc, nontrivial=("E" == script[0]))
+        ctx.count("restore_" + RESTORE_FUNS[which])
+        ctx.count("restore_outcome_" + ("raised" if isinstance(res, cq.Err) else "returned"))
+        if not guard and which in (0, 1, 2):
+            ctx.count("restore_crash_in_experiment_power_flow")      # the scripts on which the pre-repair code left the net modified
+        terms.append("run_restore %d %s %s %s" % (which, cq.lst([{"C": "Conv", "E": "Exp", "U": "Unexp"}[o] for o in script]), cq.nat(2),
+                                                   cq.opt(crash_at, cq.nat)))
+        obs.append((desc, [flags, res, guard]))
+    model = ctx.coq_eval("c30_restore", "C30.ModelRestore", terms, prelude="Open Scope Z_scope.", shard=200, timeout=600)
+    for (desc, o), m in zip(obs, model):
+        ctx.corr_checked += 1
+        mm = [m[0], m[1], m[2]]
+        same = mm[0] == o[0] and mm[2] == o[2] and (
+            (isinstance(mm[1], cq.Err) and isinstance(o[1], cq.Err)) or mm[1] == o[1])
+        if not same:
+            ctx.disagreement("temporary modification of the net: impl [changed, result, guard] = %r / model %r" % (o, mm), desc)
+
+
 # ------------------------------------------------------------------ driver
 def check_histories(ctx, histories, label):
     obs, terms, aux = [], [], []
@@ -426,11 +546,14 @@ def run(ctx):
     check_histories(ctx, hist, "stub")
     for _ in range(ctx.n(10, 300)):
         real_history(ctx, rng)
+    restore_cases(ctx)
 
 
 def replay(ctx, rec):
     case = rec["case"]
-    if isinstance(case, dict) and "real" in case:
+    if isinstance(case, dict) and "restore" in case:
+        restore_cases(ctx)
+    elif isinstance(case, dict) and "real" in case:
         ctx.notes.append("real-function histories are regenerated from the seed")
         run(ctx)
     else:
